@@ -144,6 +144,15 @@ func (d *vdns) serve() {
 
 // ------------------------------------------------------------------ concretisation
 var vcovAddr = map[string]string{"pub4": "93.184.216.34", "priv4": "10.1.2.3", "loop4": "127.0.0.1", "pub6": "2606:2800:220:1::1", "ula6": "fd12:3456::1"}
+
+// a second address per class for "blockedlit" rows: literals whose text a configured pattern matches (as a prefix)
+var vcovAddrB = map[string]string{"pub4": "93.184.77.5", "priv4": "10.77.2.3", "loop4": "127.77.0.1", "pub6": "2606:2800:77::1", "ula6": "fd12:77::1"}
+
+// the domain patterns of a policy with patterns, in the styles operators write them: a whole-host pattern, an unanchored one,
+// a prefix, a suffix, and address prefixes (the pattern stage sees the host text of literals too)
+var vcovPatterns = []string{`.*\.blocked\.test$`, `partial\.example`, `^intra\.`, `\.internal$`,
+	`^93\.184\.77\.`, `^10\.77\.`, `^127\.77\.`, `^2606:2800:77:`, `^fd12:77:`}
+
 var vcovNet = map[string]string{"n10": "10.0.0.0/8", "n127": "127.0.0.0/8", "nfc": "fc00::/7", "npub4": "93.184.0.0/16", "npub6": "2606:2800::/32"}
 
 func vcovPorts(class string) []string {
@@ -167,6 +176,7 @@ type vcovInp struct {
 	Port    string   `json:"port"`
 	Addr    string   `json:"addr"`
 	Answers []string `json:"answers"`
+	Pm      string   `json:"pm"` // blocked forms: the pattern matches the whole host / a proper part of it
 }
 type vcovPol struct {
 	Block    []string `json:"block"`
@@ -219,8 +229,20 @@ func vcovHosts(in *vcovInp, id int) (hosts []string, name string) {
 		name = fmt.Sprintf("covert%d.verif.test", id)
 		hosts = []string{name}
 	case "blockedname":
-		name = fmt.Sprintf("covert%d.blocked.test", id)
-		hosts = []string{name}
+		if in.Pm == "whole" {
+			hosts = []string{fmt.Sprintf("covert%d.blocked.test", id)}
+		} else {
+			// matched by an unanchored pattern in the middle, by a prefix pattern, by a suffix pattern
+			hosts = []string{fmt.Sprintf("covert%d.partial.example.test", id), fmt.Sprintf("intra.covert%d.test", id), fmt.Sprintf("covert%d.internal", id)}
+		}
+		name = hosts[0]
+	case "blockedlit":
+		b := vcovAddrB[in.Addr]
+		if strings.Contains(b, ":") {
+			hosts = []string{"[" + b + "]"}
+		} else {
+			hosts = []string{b}
+		}
 	case "garbage":
 		hosts = []string{"not an address", "[::1", "]:[", "\x00\x01", "a b"}
 	case "empty":
@@ -238,7 +260,7 @@ func vcovConfig(p *vcovPol) *RegConfig {
 		c.CovertAllowlistSubnets = append(c.CovertAllowlistSubnets, vcovNet[n])
 	}
 	if p.Patterns {
-		c.CovertBlocklistDomains = []string{`.*\.blocked\.test$`}
+		c.CovertBlocklistDomains = append([]string(nil), vcovPatterns...)
 	}
 	c.ParseBlocklists()
 	return c
@@ -300,6 +322,7 @@ func TestVerifCovertRows(t *testing.T) {
 					s = h + ":" + p
 				}
 				if name != "" {
+					name = h // every spelling of a name form is a name of its own
 					ans := []string{}
 					for _, a := range r.Inp.Answers {
 						ans = append(ans, vcovAddr[a])
@@ -323,6 +346,9 @@ func TestVerifCovertRows(t *testing.T) {
 				wantAddr := ""
 				if r.Result != "rejected" {
 					wantAddr = vcovAddr[r.Result]
+					if r.Inp.Form == "blockedlit" {
+						wantAddr = vcovAddrB[r.Result]
+					}
 				}
 				switch {
 				case pan != nil:
@@ -411,8 +437,8 @@ func TestVerifCovertCoupling(t *testing.T) {
 		answers []string
 		covert  string
 	}{
-		{"rebind", []string{"127.0.0.2", "127.0.0.3", "127.0.0.3"}, ""},   // permitted at admission, forbidden afterwards
-		{"stable", []string{"127.0.0.2", "127.0.0.2", "127.0.0.2"}, ""},   // control
+		{"rebind", []string{"127.0.0.2", "127.0.0.3", "127.0.0.3"}, ""},    // permitted at admission, forbidden afterwards
+		{"stable", []string{"127.0.0.2", "127.0.0.2", "127.0.0.2"}, ""},    // control
 		{"forbidden", []string{"127.0.0.3", "127.0.0.2", "127.0.0.2"}, ""}, // forbidden at admission: never admitted, never dialed
 		{"literal", nil, fmt.Sprintf("127.0.0.2:%d", port)},
 		{"literal-forbidden", nil, fmt.Sprintf("127.0.0.3:%d", port)},
